@@ -1314,7 +1314,7 @@ class Component(SupportComplexDataType, CanBeVaries):
         return super(Component, self).add(obj)
 
     def parse_child(self, text, child_name=None, reference=None):
-        kwargs = {'name': child_name}
+        kwargs = {'name': child_name, 'reference': reference}
         if reference is not None:
             kwargs['datatype'] = reference[2]
         return super(Component, self).parse_child(text, **kwargs)
